@@ -376,6 +376,9 @@ func (m *cacheModel) analyseLocks(fn *ssa.Function, entryLocked bool) *fnLockRes
 					}
 					res.preLock = append(res.preLock, ins)
 				case ssa.CallInstruction, *ssa.MapUpdate:
+					if call, ok := ins.(*ssa.Call); ok && capacityHintOnly(fn, call) {
+						continue
+					}
 					res.preLock = append(res.preLock, ins)
 				}
 			}
@@ -383,6 +386,50 @@ func (m *cacheModel) analyseLocks(fn *ssa.Function, entryLocked bool) *fnLockRes
 	done:
 	}
 	return res
+}
+
+// capacityHintOnly: a call made before the method's own critical section that cannot matter to what the method
+// does — the callee is a method of the same receiver that writes nothing (it only locks, reads and unlocks), and
+// its result is used for nothing but the capacity of a freshly made slice.
+func capacityHintOnly(fn *ssa.Function, call *ssa.Call) bool {
+	cal := staticCallee(&call.Call)
+	if cal == nil || len(fn.Params) == 0 || len(call.Call.Args) == 0 || call.Call.Args[0] != ssa.Value(fn.Params[0]) {
+		return false
+	}
+	h := origin(cal)
+	if h == nil || h.Blocks == nil || h.Signature.Recv() == nil {
+		return false
+	}
+	pure := true
+	allInstrs(h, func(in ssa.Instruction) {
+		switch y := in.(type) {
+		case *ssa.Store:
+			if a, ok := y.Addr.(*ssa.Alloc); !ok || a.Heap {
+				pure = false
+			}
+		case *ssa.MapUpdate, *ssa.Go, *ssa.Send:
+			pure = false
+		case ssa.CallInstruction:
+			cc := y.Common()
+			g := staticCallee(cc)
+			if g == nil || g.Pkg == nil || g.Pkg.Pkg.Path() != "sync" {
+				pure = false
+			}
+		}
+	})
+	if !pure {
+		return false
+	}
+	for _, r := range referrersOf(call) {
+		if _, ok := r.(*ssa.DebugRef); ok {
+			continue
+		}
+		mk, ok := r.(*ssa.MakeSlice)
+		if !ok || mk.Cap != ssa.Value(call) || mk.Len == ssa.Value(call) {
+			return false
+		}
+	}
+	return true
 }
 
 func runC09(c *Ctx) {
@@ -836,7 +883,7 @@ func runC09(c *Ctx) {
 				probs = append(probs, fmt.Sprint("other lock operations: ", r.otherOps))
 			}
 			if len(r.preLock) > 0 {
-				probs = append(probs, fmt.Sprintf("effectful instruction before Lock at %s", P.pos(instrPos(r.preLock[0]))))
+				probs = append(probs, fmt.Sprintf("effectful instruction before Lock at %s (%s)", P.pos(instrPos(r.preLock[0])), r.preLock[0].String()))
 			}
 			if len(r.returnsHeld) > 0 {
 				probs = append(probs, fmt.Sprintf("returns with the lock held at %s", P.pos(instrPos(r.returnsHeld[0]))))
